@@ -389,13 +389,11 @@ func derivedSet.InheritFrom
   ghost after call NewSet: trkiter = rangeindex
   ghost before call ReadableSet.OnUpdate: assert sourceElements == lasttrk && trkiter == rangeindex        -- the tracker was created in this very iteration, for this source
   -- the teardown list: per source first the unsubscribe handle, then the function that takes the source's elements out -
-  -- torn down in this order no report of the source can arrive after its elements were removed
-  ghost local isunsub BoolArr       -- unsubscribe handles returned by the sources (ghost)
-  ghost at entry: assume forall r Int :: !sel(isunsub, r)
-  ghost after call ReadableSet.OnUpdate: isunsub = upd(isunsub, result, true)
-  loop 1 invariant forall r Int :: sel(isunsub, r) ==> r < $alloc
-  loop 1 invariant len(unsubscribeCallbacks) == 2 * (rangeindex + 1)
-  loop 1 invariant forall j Int :: 0 <= j && j <= rangeindex ==> sel(isunsub, unsubscribeCallbacks[2 * j]) && !sel(isunsub, unsubscribeCallbacks[2 * j + 1])
+  -- torn down in this order no report of the source can arrive after its elements were removed (checked pair by pair: when
+  -- the loop comes round again, and when it ends, the last but one entry is the handle the last source returned)
+  ghost local lastunsub Int         -- the unsubscribe handle the source of the last iteration returned (ghost)
+  ghost after call ReadableSet.OnUpdate: lastunsub = result
+  loop 1 invariant rangeindex >= 0 ==> len(unsubscribeCallbacks) >= 2 && unsubscribeCallbacks[len(unsubscribeCallbacks) - 2] == lastunsub
   loop 1 invariant forall i Int :: 0 <= i && i < len(sources) ==> sources[i] != nil
 
 func derivedSet.InheritFrom$1
